@@ -85,3 +85,63 @@ pub fn subid_collision(_a: &Value) -> Value {
                "violation":violation,"why": if violation {"a second subscription captured the id (and notifications) of an active one"} else {""}})
     })
 }
+
+/// responses that share an array frame with subscription notifications (one of which finds its stream's buffer full) must still
+/// complete their calls, each with the response bearing its own id
+pub fn mixed_frame(_a: &Value) -> Value {
+    use crate::memclient::client;
+    use jsonrpsee_core::client::{Subscription, SubscriptionClientT};
+    let rt = tokio::runtime::Builder::new_multi_thread().worker_threads(2).enable_all().build().unwrap();
+    rt.block_on(async move {
+        let (c, mut s) = client(ClientBuilder::default().max_buffer_capacity_per_subscription(1).request_timeout(std::time::Duration::from_secs(2)));
+        let c = std::sync::Arc::new(c);
+        let c0 = c.clone();
+        let h = tokio::spawn(async move { c0.subscribe::<String, _>("sub", rpc_params![], "unsub").await });
+        let rq = s.next_request().await.unwrap();
+        s.push(json!({"jsonrpc":"2.0","id":rq["id"],"result":"S"}));
+        let _unpolled: Subscription<String> = h.await.unwrap().expect("subscription accepted");
+        let mut outcomes = vec![];
+        let mut bad = false;
+        for layout in 0..2 {
+            // servers answer a batch with one array; notifications may be packed into the same frame
+            let cb = c.clone();
+            let hb = tokio::spawn(async move {
+                let mut b = jsonrpsee_core::params::BatchRequestBuilder::new();
+                b.insert("m", rpc_params![]).unwrap();
+                b.insert("m", rpc_params![]).unwrap();
+                cb.batch_request::<String>(b).await
+            });
+            let Some(rq) = s.next_request().await else {
+                return json!({"scenario":"c03_mixed_frame","observed":{"outcomes":outcomes,"layout":layout,"connected":c.is_connected()},"violation":true,"why":"the client stopped sending calls"});
+            };
+            let ids: Vec<Value> = rq.as_array().map(|a| a.iter().map(|e| e["id"].clone()).collect()).unwrap_or_default();
+            if ids.len() != 2 {
+                return json!({"scenario":"c03_mixed_frame","observed":{"wire":rq},"violation":true,"why":"the batch did not reach the wire as two entries"});
+            }
+            let n = |x: &str| json!({"jsonrpc":"2.0","method":"sub","params":{"subscription":"S","result":x}});
+            let a1 = json!({"jsonrpc":"2.0","id":ids[0],"result":format!("answer-for-{}", ids[0])});
+            let a2 = json!({"jsonrpc":"2.0","id":ids[1],"result":format!("answer-for-{}", ids[1])});
+            let frame = if layout == 0 { vec![n("n1"), n("n2"), a2.clone(), a1.clone()] } else { vec![a2.clone(), n("n3"), a1.clone(), n("n4")] };
+            s.push(Value::Array(frame));
+            match hb.await.unwrap() {
+                Ok(rs) => {
+                    let got: Vec<String> = rs.into_iter().map(|e| e.unwrap_or_else(|e| format!("Err({e})"))).collect();
+                    if got != vec![format!("answer-for-{}", ids[0]), format!("answer-for-{}", ids[1])] {
+                        bad = true;
+                    }
+                    outcomes.push(json!(got));
+                }
+                Err(e) => {
+                    bad = true;
+                    outcomes.push(json!(format!("Err({e})")));
+                }
+            }
+            // the unsubscribe the lagging subscription causes is acknowledged
+            while let Some(rq) = s.try_next_request(200).await {
+                s.push(json!({"jsonrpc":"2.0","id":rq["id"],"result":true}));
+            }
+        }
+        json!({"scenario":"c03_mixed_frame","observed":{"outcomes":outcomes},"violation":bad,
+               "why": if bad {"a response that shared an array frame with notifications did not complete its call with its own value"} else {""}})
+    })
+}
